@@ -295,6 +295,10 @@ class WWWAuthenticate:
             # = that is not trailing, this is parameters.
             return cls(scheme, parse_dict_header(rest), None)
 
+        if not rest:
+            # Only a scheme, neither parameters nor a token.
+            return cls(scheme)
+
         # No = or only trailing =, this is a token.
         return cls(scheme, None, rest)
 
